@@ -12,34 +12,11 @@ use std::sync::{Arc, Mutex};
 use shuttle::scheduler::{Schedule, Scheduler, Task, TaskId};
 
 use crate::case::Case;
-use crate::ctx::{Ev, ExecCtx, TokKind};
+use crate::ctx::ExecCtx;
 use crate::driver::{self, RunInfo};
 use crate::sched::{RecSched, SchedKind, SchedReport, SchedSpec};
 
-#[derive(Clone, Debug, PartialEq)]
-pub enum Failure {
-    /// All unfinished simulated threads are blocked.
-    Deadlock(String),
-    /// More scheduling points than the step budget.
-    StepLimit,
-    /// A panic escaped a simulated thread.
-    Panic(String),
-}
-
-pub struct Outcome {
-    pub log: Vec<Ev>,
-    pub info: Option<RunInfo>,
-    pub sched: SchedReport,
-    pub failure: Option<Failure>,
-    pub live_tokens: Vec<(u64, TokKind)>,
-    pub double_drops: Vec<u64>,
-    pub tokens_created: u64,
-    pub violations: Vec<(String, String)>,
-    pub after_drop: Vec<String>,
-    pub last_panic: Option<String>,
-    pub late_drops: Vec<u64>,
-    pub drop_wakes: u64,
-}
+pub use crate::outcome::{Failure, Outcome};
 
 /// Supplies the executions of a batch and receives their outcomes.
 pub trait WorkSource: Send {
